@@ -124,6 +124,12 @@ def run(ctx):
                     pass
                 elif src(t) in ("self._device_id != -1", "self.device_id != -1") and not pol:
                     pass
+                elif src(t) in ("self._writeable", "self.readonly"):
+                    pass  # skipping an already locked array is harmless
+                elif any(attr_chain(x) and attr_chain(x)[:2] == ["self", "_val"] for x in ast.walk(t)):
+                    verdict = False
+                    why.append(f"the lock is conditional on a property of the wrapped array (`{'' if pol else 'not '}{src(t)}`): numpy "
+                               "buffers for which it does not hold stay writable through the source array and the raw handle")
                 else:
                     verdict = None if verdict else verdict
                     why.append(f"unrecognised guard `{'' if pol else 'not '}{src(t)}`")
@@ -249,6 +255,49 @@ def run(ctx):
                 ctx.check("R07.2", key, okk, "a copy of a read-only array can be returned unlocked", at, r.ast)
             else:
                 ctx.und("R07.2", key, "return shape not modelled", at, r.ast)
+
+    # library-made views of caller-owned arrays: locking the view does not lock the base
+    ctx.rule("R07.6", "constructors never wrap a library-made *view* of a caller-owned array (np.broadcast_to / reshape / "
+                      "transpose of a parameter): such a view is locked but the caller's base array stays writable; broadcast is "
+                      "allowed on fresh arrays and on values guarded by np.isscalar", floor=1)
+    VIEW = {"broadcast_to", "asarray", "atleast_1d", "squeeze", "ravel"}
+    FRESH = {"array", "full", "zeros", "ones", "empty", "copy", "arange", "linspace", "zeros_like", "ones_like", "full_like"}
+    for modname in (ANY, FLD, MFLD, "nifty.cl.sugar"):
+        mod = m.module(modname)
+        for fi in mod.all_functions:
+            if not any(isinstance(c, ast.Call) and call_name(c) in VIEW for c in walk_no_nested(fi.node)):
+                continue
+            cfg = cfg_of(fi)
+            params = set(fi.params())
+            rdm = cfg.reaching_defs(fi.params())
+            for n, c in find_nodes(cfg, lambda q: isinstance(q, ast.Call) and call_name(q) in VIEW and q.args):
+                ext = m.ext_name(mod, c.func) or ""
+                if not (ext.startswith("numpy.") or ext.startswith("np.") or src(c.func).startswith("xp.")):
+                    continue
+                a0 = c.args[0]
+                key = f"{fi.key}::{short(c, 70)}"
+                if not _flows_into_storage(cfg, rdm, n, c):
+                    continue  # the view is consumed by arithmetic / never becomes field storage
+                if isinstance(a0, ast.Call) and call_name(a0) in FRESH:
+                    ctx.ok("R07.6", key, "view of a fresh array", fi, c)
+                elif isinstance(a0, ast.Name):
+                    # is the name (transitively) a parameter?
+                    defs = rdm[n.id].get(a0.id, frozenset())
+                    from_param = cfg.entry.id in defs and a0.id in params
+                    fresh_def = all(cfg.nodes[d].kind == "stmt" and isinstance(cfg.nodes[d].ast, ast.Assign)
+                                    and isinstance(cfg.nodes[d].ast.value, ast.Call) and call_name(cfg.nodes[d].ast.value) in FRESH
+                                    for d in defs) and bool(defs)
+                    scal = any(isinstance(t, ast.Call) and src(t.func) in ("np.isscalar", "numpy.isscalar") and src(t.args[0]) == a0.id and pol
+                               for t, pol in known_atoms(cfg, n.id))
+                    if fresh_def or scal:
+                        ctx.ok("R07.6", key, "fresh array" if fresh_def else "guarded by np.isscalar", fi, c)
+                    elif from_param and call_name(c) == "broadcast_to":
+                        ctx.bad("R07.6", key, f"a view of the caller's array `{a0.id}` becomes field storage: the field locks the view, "
+                                              "the caller keeps a writable handle to the same memory", fi, c)
+                    else:
+                        ctx.und("R07.6", key, "provenance of the viewed array not modelled", fi, c)
+                else:
+                    ctx.und("R07.6", key, "argument shape not modelled", fi, c)
 
     # ------------------------------------------------------------------ R07.3
     ctx.rule("R07.3", "single writer: Field._val/_domain and AnyArray._val/_writeable are assigned only in their "
@@ -419,6 +468,32 @@ def run(ctx):
                 elif ro and len(at) == len(ro):
                     okk = True
             ctx.check("R07.5", key, okk, "asnumpy() can return a writable array for a read-only AnyArray", asn, r.ast)
+
+
+STORAGE_CTORS = {"Field", "AnyArray", "from_raw", "makeField", "MultiField", "scalar"}
+
+
+def _flows_into_storage(cfg, rd, node, call):
+    """The value of `call` (a view) is passed - directly or through one local - to a field/array constructor."""
+    st = node.ast
+    for x in ast.walk(st):
+        if isinstance(x, ast.Call) and call_name(x) in STORAGE_CTORS and any(a is call for a in x.args):
+            return True
+    if isinstance(st, ast.Assign) and st.value is call and len(st.targets) == 1 and isinstance(st.targets[0], ast.Name):
+        v = st.targets[0].id
+        for n2 in cfg.nodes:
+            if rd[n2.id] is None or node.id not in rd[n2.id].get(v, ()):
+                continue
+            if n2.ast is None or n2.kind not in ("stmt",):
+                continue
+            for x in ast.walk(n2.ast):
+                if isinstance(x, ast.Call) and call_name(x) in STORAGE_CTORS:
+                    for a in x.args:
+                        if isinstance(a, ast.Name) and a.id == v:
+                            return True
+                        if isinstance(a, ast.Call) and call_name(a) in STORAGE_CTORS and any(isinstance(b, ast.Name) and b.id == v for b in a.args):
+                            return True
+    return False
 
 
 def strip(test):
